@@ -1,8 +1,10 @@
 package props
 
 import (
+	"crypto/tls"
 	"encoding/binary"
 	"fmt"
+	"net"
 	"strings"
 	"sync"
 	"time"
@@ -37,6 +39,9 @@ type C15Case struct {
 	Pool       int       `json:"pool"`
 	Adversary  string    `json:"adversary"` // "" | silence | garbage | truncated | hugelen | replay-hello | replay-join
 	Perms      []C15Perm `json:"perms"`
+	// TLS: b@h2 has a second acceptor that speaks TLS (port 15001); c@h3 reaches b through it, and
+	// the adversary talks to it as a TLS client (it knows no cookie but can of course do TLS)
+	TLS bool `json:"tls,omitempty"`
 }
 
 type c15 struct{}
@@ -76,6 +81,7 @@ func (c15) Generate(r *simkit.Rand, tier string) any {
 	c.NoSpawnB = r.Chance(0.2)
 	c.ExposeA = r.Bool()
 	c.Adversary = simkit.Pick(r, "", "silence", "garbage", "truncated", "hugelen", "replay-hello", "replay-join", "replay-join", "forge", "forge", "forge-empty", "forge-empty", "forge-long")
+	c.TLS = r.Chance(0.3)
 	if c.Adversary == "replay-join" {
 		c.Pool = 2
 	}
@@ -201,7 +207,11 @@ func (c15) Run(e *simkit.Env, cc any) {
 			o.Security.ExposeEnvRemoteApplicationStart = c.ExposeA
 			o.Env = map[gen.Env]any{"SECRET_OF_A": "a-secret"}
 		}})
-	b := simkit.StartNetNode(e, sn, simkit.NetNodeOptions{Name: "b@h2", Cookie: c.CookieB, AcceptorCookie: c.AcceptorB, PoolSize: c.Pool, MaxMessageSize: c.MaxSizeB, Flags: flagsB})
+	tlsPort := uint16(0)
+	if c.TLS {
+		tlsPort = 15001
+	}
+	b := simkit.StartNetNode(e, sn, simkit.NetNodeOptions{Name: "b@h2", Cookie: c.CookieB, AcceptorCookie: c.AcceptorB, PoolSize: c.Pool, MaxMessageSize: c.MaxSizeB, Flags: flagsB, TLSPort: tlsPort})
 	// C shares B's effective cookie so that it can always connect
 	effB := c.CookieB
 	if c.AcceptorB != "" {
@@ -216,6 +226,14 @@ func (c15) Run(e *simkit.Env, cc any) {
 		simkit.StopNode(e, b, false, 0)
 		simkit.StopNode(e, cn, false, 0)
 	}()
+	if c.TLS {
+		// c reaches b through the TLS acceptor
+		if err := cn.Network().AddRoute("b@h2", gen.NetworkRoute{Route: gen.Route{Host: "h2", Port: 15001, TLS: true}, InsecureSkipVerify: true}, 100); err != nil {
+			e.Fail("C15/unexpected-failure", "AddRoute: %v", err)
+			return
+		}
+		e.Probe("tls-acceptor")
+	}
 	if c.RouteA != "" {
 		if err := a.Network().AddRoute("b@h2", gen.NetworkRoute{Route: gen.Route{Host: "h2", Port: 15000}, Cookie: c.RouteA}, 100); err != nil {
 			e.Fail("C15/unexpected-failure", "AddRoute: %v", err)
@@ -297,8 +315,26 @@ func (c15) Run(e *simkit.Env, cc any) {
 	// ---- adversary ----
 	if c.Adversary != "" {
 		forged := forgedFrame(probePID)
+		dialB := func() (net.Conn, error) {
+			if !c.TLS {
+				return sn.Dial("tcp", "h2:15000")
+			}
+			raw, err := sn.Dial("tcp", "h2:15001")
+			if err != nil {
+				return nil, err
+			}
+			tc := tls.Client(raw, &tls.Config{InsecureSkipVerify: true})
+			raw.SetReadDeadline(time.Now().Add(2 * time.Second))
+			if err := tc.Handshake(); err != nil {
+				raw.Close()
+				return nil, err
+			}
+			raw.SetReadDeadline(time.Time{})
+			e.Probe("adversary-speaks-tls")
+			return tc, nil
+		}
 		send := func(payload []byte, wait time.Duration) {
-			conn, err := sn.Dial("tcp", "h2:15000")
+			conn, err := dialB()
 			if err != nil {
 				return
 			}
@@ -361,7 +397,7 @@ func (c15) Run(e *simkit.Env, cc any) {
 			case "forge-long":
 				digest = strings.Repeat("0a", 100)
 			}
-			conn, err := sn.Dial("tcp", "h2:15000")
+			conn, err := dialB()
 			if err == nil {
 				step := func(m any) {
 					conn.Write(hsFrame(m))
